@@ -9,7 +9,7 @@ ATTR = [
  ("fix: Delay panicked", ["C08", "C15"]),
  ("fix: Delay busy-looped", ["C09"]),
  ("fix: Delay copied input samples before", ["C08", "C10"]),
- ("fix: Delay was retired at end of input", ["C05", "C06"]),
+ ("fix: Delay was retired at end of input", ["C05"]),
  ("fix: Delay::set_delay panicked or mis-sized", ["C10"]),
  ("fix: Delay panicked in debug builds when the delay exactly", ["C08"]),
  ("fix: FftFilterFloat panicked in debug builds", ["C08"]),
